@@ -7,13 +7,18 @@ import (
 
 // ---- vector clocks ---------------------------------------------------------------
 
+// A clock holds two components per thread: index 2i is thread i's component of the happens-before
+// relation, index 2i+1 its component of the same relation WITHOUT the edges from a mutex release to the
+// next acquisition ("weak" order). Two accesses that are ordered only through such an edge, by threads
+// that hold no lock in common, are ordered by the luck of the lock's acquisition order (see Acc).
 type vclock []uint32
 
 func (v *vclock) tick(t *thread) {
-	for len(*v) <= t.id {
+	for len(*v) <= 2*t.id+1 {
 		*v = append(*v, 0)
 	}
-	(*v)[t.id]++
+	(*v)[2*t.id]++
+	(*v)[2*t.id+1]++
 }
 
 func (v vclock) clone() vclock { return append(vclock(nil), v...) }
@@ -29,9 +34,36 @@ func (v *vclock) join(o vclock) {
 	}
 }
 
+// joinFull joins the happens-before components only (the edge of a mutex acquisition).
+func (v *vclock) joinFull(o vclock) {
+	for len(*v) < len(o) {
+		*v = append(*v, 0)
+	}
+	for i := 0; i < len(o); i += 2 {
+		if o[i] > (*v)[i] {
+			(*v)[i] = o[i]
+		}
+	}
+}
+
 // leq: v happens-before-or-equals o
 func (v vclock) leq(o vclock) bool {
-	for i, x := range v {
+	for i := 0; i < len(v); i += 2 {
+		x := v[i]
+		if x == 0 {
+			continue
+		}
+		if i >= len(o) || x > o[i] {
+			return false
+		}
+	}
+	return true
+}
+
+// leqWeak: v is ordered before o without any mutex release->acquire edge
+func (v vclock) leqWeak(o vclock) bool {
+	for i := 1; i < len(v); i += 2 {
+		x := v[i]
 		if x == 0 {
 			continue
 		}
@@ -44,9 +76,9 @@ func (v vclock) leq(o vclock) bool {
 
 func (v vclock) hash(e *exec) uint64 {
 	var h uint64
-	for i, x := range v {
-		if x != 0 {
-			h += mix(e.threads[i].sid, uint64(x))
+	for i := 0; i < len(v); i += 2 {
+		if x := v[i]; x != 0 {
+			h += mix(e.threads[i/2].sid, uint64(x))
 		}
 	}
 	return h
@@ -77,6 +109,27 @@ func (e *exec) obj(p unsafe.Pointer) *objState {
 
 // acquire/release edges for the running thread
 func (e *exec) acq(s *objState) { e.cur.vc.join(s.vc) }
+
+// acqLock is the acquisition of a mutex: a happens-before edge that the weak order does not have; the
+// lock joins the thread's lock set until unlock.
+func (e *exec) acqLock(s *objState) {
+	e.cur.vc.joinFull(s.vc)
+	e.locked = append(e.locked, s)
+}
+
+// (a lock may be released by another thread than the one that took it - the scheduler's load() hands
+// runner.refMu to the goroutine it starts - so the lock set of an access is "every mutex that is locked
+// right now", a superset of what the running thread holds: fewer reports, never a wrong one)
+func (e *exec) relLock(s *objState) {
+	s.vc.join(e.cur.vc)
+	h := e.locked
+	for i := len(h) - 1; i >= 0; i-- {
+		if h[i] == s {
+			e.locked = append(h[:i:i], h[i+1:]...)
+			break
+		}
+	}
+}
 func (e *exec) rel(s *objState) { s.vc.join(e.cur.vc) }
 func (e *exec) acqrel(s *objState) {
 	e.cur.vc.join(s.vc)
@@ -95,7 +148,7 @@ func (m *Mutex) Lock() {
 	s := e.obj(unsafe.Pointer(m))
 	e.point(&op{kind: opLock, label: "Lock", enabled: func() bool { return !s.locked }})
 	s.locked = true
-	e.acq(s)
+	e.acqLock(s)
 }
 
 func (m *Mutex) TryLock() bool {
@@ -109,7 +162,7 @@ func (m *Mutex) TryLock() bool {
 		return false
 	}
 	s.locked = true
-	e.acq(s)
+	e.acqLock(s)
 	return true
 }
 
@@ -122,7 +175,7 @@ func (m *Mutex) Unlock() {
 	if !s.locked {
 		panic("sync: unlock of unlocked mutex")
 	}
-	e.rel(s)
+	e.relLock(s)
 	s.locked = false
 }
 
@@ -140,7 +193,7 @@ func (m *RWMutex) Lock() {
 	s := e.obj(unsafe.Pointer(m))
 	e.point(&op{kind: opLock, label: "Lock(rw)", enabled: func() bool { return !s.locked && s.readers == 0 }})
 	s.locked = true
-	e.acq(s)
+	e.acqLock(s)
 }
 
 func (m *RWMutex) Unlock() {
@@ -152,7 +205,7 @@ func (m *RWMutex) Unlock() {
 	if !s.locked {
 		panic("sync: Unlock of unlocked RWMutex")
 	}
-	e.rel(s)
+	e.relLock(s)
 	s.locked = false
 }
 
@@ -164,7 +217,7 @@ func (m *RWMutex) RLock() {
 	s := e.obj(unsafe.Pointer(m))
 	e.point(&op{kind: opRLock, label: "RLock", enabled: func() bool { return !s.locked }})
 	s.readers++
-	e.acq(s)
+	e.acqLock(s)
 }
 
 func (m *RWMutex) RUnlock() {
@@ -176,7 +229,7 @@ func (m *RWMutex) RUnlock() {
 	if s.readers <= 0 {
 		panic("sync: RUnlock of unlocked RWMutex")
 	}
-	e.rel(s)
+	e.relLock(s)
 	s.readers--
 }
 
